@@ -102,7 +102,7 @@ def deep_clone(m, v):
     if isinstance(v, (StrRef, SliceRef)): return v
     if isinstance(v, MapV):
         r = MapV()
-        for k, (kv, c) in v.d.items(): r.d[k] = (deep_clone(m, kv), Cell(deep_clone(m, c.v)))
+        r.e = [(RStr(k.chars), Cell(deep_clone(m, c.v))) for k, c in v.e]
         return r
     if isinstance(v, (int, float, str, bool, Sym)) or v is UNIT: return v
     raise Unsupported(f'deep_clone {v!r}')
@@ -460,31 +460,32 @@ def m_collect(m, callee, a):
 
 # ------------------------------------------------------------------ HashMap
 
-def map_key(m, k):
-    s = as_rstr(k)
-    if not s.is_concrete(): raise Unsupported('symbolic map key')
-    return s.concrete()
+def map_find(m, mp, k):
+    ks = as_rstr(k)
+    for i, (kk, c) in enumerate(mp.e):
+        if str_eq(m, kk, ks): return i
+    return -1
 
 
 @model('HashMap::new')
 def m_map_new(m, c, a): return MapV()
 
 
-@model('HashMap::get')
+@model('HashMap::get', 'HashMap::get_mut')
 def m_map_get(m, c, a):
-    mp = deref(a[0]); e = mp.d.get(map_key(m, a[1]))
-    return some(Ptr(e[1])) if e else none()
-
-
-@model('HashMap::get_mut')
-def m_map_get_mut(m, c, a): return m_map_get(m, c, a)
+    mp = deref(a[0]); i = map_find(m, mp, a[1])
+    return some(Ptr(mp.e[i][1])) if i >= 0 else none()
 
 
 @model('HashMap::insert')
 def m_map_insert(m, c, a):
-    mp = deref(a[0]); k = map_key(m, a[1]); old = mp.d.get(k)
-    mp.d[k] = (a[1], Cell(a[2]))
-    return some(old[1].v) if old else none()
+    mp = deref(a[0]); i = map_find(m, mp, a[1])
+    if i >= 0:
+        old = mp.e[i][1].v
+        mp.e[i][1].v = a[2]
+        return some(old)
+    mp.e.append((RStr(as_rstr(a[1]).chars), Cell(a[2])))
+    return none()
 
 
 # ------------------------------------------------------------------ fmt
@@ -724,7 +725,7 @@ def m_lines(m, c, a):
 @model('HashMap::iter')
 def m_map_iter(m, c, a):
     mp = deref(a[0])
-    return IterV('mapiter', [Cell(Agg(None, None, None, [Ptr(Cell(kv)), Ptr(cell)])) for k, (kv, cell) in mp.d.items()])
+    return IterV('mapiter', [Cell(Agg(None, None, None, [Ptr(Cell(kv)), Ptr(cell)])) for kv, cell in mp.e])
 
 
 @model('[]::sort')
